@@ -31,6 +31,7 @@ type regProfile struct {
 	ServerFilter  bool // apply artifactType filter server side (OCI-Filters-Applied)
 	PageLimit     int  // server-imposed page size (0 = none)
 	LinkStyle     int  // 0 relative, 1 absolute, 2 relative with extra params, 3 absolute path only
+	EmptyPages    bool // every referrers page is preceded by an empty page that links to it
 }
 
 type regRepo struct {
@@ -670,9 +671,19 @@ func (f *fakeRegistry) serveReferrers(w http.ResponseWriter, r *http.Request, na
 		start = len(all)
 	}
 	page := all[start:end]
+	if f.prof.EmptyPages && q.Get("e") == "" && start < len(all) {
+		// an empty page first (a registry that filters or expires entries after cutting pages)
+		page, end = nil, start
+	}
 	if end < len(all) {
 		nq := url.Values{}
 		nq.Set("start", strconv.Itoa(end))
+		if f.prof.EmptyPages && page == nil {
+			nq.Set("e", "1")
+		}
+		if v := q.Get("n"); v != "" {
+			nq.Set("n", v)
+		}
 		if at := q.Get("artifactType"); at != "" {
 			nq.Set("artifactType", at)
 		}
